@@ -84,6 +84,10 @@ type c09op struct {
 	kind, a, b, c int // a: which shared object, b and c: which variant
 }
 
+type c9valuer struct{ n int }
+
+func (v c9valuer) LogValue() slog.Value { return slog.GroupValue(slog.Int("n", v.n)) }
+
 type c09world struct {
 	lvl      zap.AtomicLevel
 	loggers  []*zap.Logger
@@ -423,6 +427,13 @@ func c09exec(c *Ctx, w *c09world, t, i int, op c09op) {
 		}
 		rec := slog.NewRecord(time.Unix(0, 0), slog.LevelWarn, "slog", 0)
 		rec.AddAttrs(slog.Int("i", i))
+		if op.a%3 == 0 {
+			// every attribute kind the handler converts, incl. nested groups,
+			// inline (empty-key) groups and a LogValuer
+			rec.AddAttrs(slog.Bool("b", true), slog.Duration("d", time.Second), slog.Float64("f", 1.5), slog.Time("tm", time.Unix(1, 0).UTC()),
+				slog.Uint64("u", 7), slog.Group("grp", slog.Int("x", t), slog.Group("inner", slog.String("y", "z"))),
+				slog.Group("", slog.Int("inl", t)), slog.Any("lv", c9valuer{t}), slog.Any("any", []int{t}), slog.Attr{})
+		}
 		if h.Enabled(context.Background(), slog.LevelWarn) {
 			_ = h.Handle(context.Background(), rec)
 		}
